@@ -67,6 +67,7 @@ def run_variant(v):
         env = dict(os.environ)
         env["VERIF_REPO"] = tmp
         env["VERIF_EVIDENCE_DIR"] = os.path.join(tmp, "evidence")
+        env.setdefault("VERIF_JOBS", "2")  # the variants already run in parallel
         results = []
         for prop in v["props"]:
             p = subprocess.run(
@@ -76,7 +77,7 @@ def run_variant(v):
                 stdout=subprocess.PIPE,
                 stderr=subprocess.STDOUT,
                 text=True,
-                timeout=300,
+                timeout=900,
             )
             results.append((prop, p.returncode, p.stdout))
         return (v,) + judge(v, results)
